@@ -44,7 +44,7 @@ ASSUMPTIONS = [
     "a format-4 designspace axis map lists the axis default as an input (so the filled-in default design location is exact)",
     "case-insensitive uniqueness of file names is str.lower() equality, the notion the UFO convention defines",
     "names written to a real directory are limited to what the scratch file system accepts (255 bytes per component)",
-    "axis maps for the inverse check have segment slopes in [1e-3, 1e3] and coordinates within +-5e5 (float conditioning)",
+    "axis maps for the inverse check have segment slopes in [1e-3, 1e3] and coordinates within +-3e6 (float conditioning)",
 ]
 WALL_BUDGET = {"quick": 900, "thorough": 3 * 3600}
 
@@ -1849,13 +1849,13 @@ CHECKS = {
 
 # kind -> (number of quick jobs, cases per quick job, thorough jobs, cases per thorough job)
 PLAN = {
-    "ds": (4, 350, 16, 2200),
-    "glif": (3, 450, 12, 2800),
+    "ds": (8, 175, 16, 2200),
+    "glif": (4, 340, 12, 2800),
     "glyphset": (2, 150, 8, 900),
-    "ufo": (3, 100, 12, 600),
+    "ufo": (4, 75, 12, 600),
     "upconv": (1, 200, 4, 1200),
-    "plist": (2, 700, 8, 4500),
-    "names": (2, 300, 8, 1900),
+    "plist": (4, 350, 8, 4500),
+    "names": (3, 200, 8, 1900),
     "gsops": (1, 120, 6, 500),
     "axismap": (1, 600, 4, 3700),
     "axismap-discrete": (1, 100, 1, 2000),
